@@ -103,6 +103,15 @@ def reference(gs, fs, n):
     # second-order polynomial: r^T A r + d^T r + k with symmetric A
     for tag, (A, d, k) in polys(n).items():
         R[("poly_quad_mean", tag)] = float(np.trace(A @ gs.V) + gs.mu @ A @ gs.mu + d @ gs.mu + k)
+    for m in range(n):
+        # x_m^2 + p_m^2 = 2 hbar (n_m + 1/2): mean and variance follow from the photon-number moments of mode m
+        nm_, nv_ = R[("mean_photon", m)]
+        R[("poly_quad_number", m)] = np.array([4 * (nm_ + 0.5), 16 * nv_])
+        from scipy.integrate import simpson
+
+        W = R[("wigner", m)]  # [len(XV), len(PV)]
+        R[("x_quad_values", m)] = simpson(W, x=PV, axis=1)
+        R[("p_quad_values", m)] = simpson(W, x=XV, axis=0)
     return R
 
 
@@ -187,6 +196,12 @@ def query(st, n, rep):
         put(("purity",), lambda: float(np.real(st.purity())))
     for tag, (A, d, k) in polys(n).items():
         put(("poly_quad_mean", tag), lambda: float(np.real(st.poly_quad_expectation(A, d, k)[0])))
+    for m in range(n):
+        Am = np.zeros((2 * n, 2 * n))
+        Am[m, m] = Am[n + m, n + m] = 1.0
+        put(("poly_quad_number", m), lambda: np.real(np.array(st.poly_quad_expectation(Am), dtype=complex)))
+        put(("x_quad_values", m), lambda: np.asarray(st.x_quad_values(m, XV, PV)))
+        put(("p_quad_values", m), lambda: np.asarray(st.p_quad_values(m, XV, PV)))
     return Q
 
 
@@ -201,8 +216,10 @@ def state_data(st, rep):
 def tol_for(rep, key, ref_trunc):
     """exact representations: 1e-8.  Anything computed from (or compared with) a Fock-basis quantity carries the
     truncation error of cutoff 12: the lost norm, weighted by up to n^2 <= CUT^2 for photon-number/quadrature moments."""
-    moments = key[0] in ("mean_photon", "number_expectation", "quad_expectation", "poly_quad_mean", "wigner")
-    fockish = key[0] in ("fock_prob", "all_fock_probs", "fidelity_vacuum", "reduced_dm", "number_expectation", "fidelity_coherent", "parity_expectation", "wigner")
+    moments = key[0] in ("mean_photon", "number_expectation", "quad_expectation", "poly_quad_mean", "poly_quad_number", "wigner", "x_quad_values", "p_quad_values")
+    if key[0] == "poly_quad_number" and rep == "fock":
+        return 3e-7 + 16 * CUT**4 * ref_trunc
+    fockish = key[0] in ("x_quad_values", "p_quad_values", "fock_prob", "all_fock_probs", "fidelity_vacuum", "reduced_dm", "number_expectation", "fidelity_coherent", "parity_expectation", "wigner")
     if rep == "fock":
         return 3e-7 + (4 * CUT**2 if moments else 30) * ref_trunc
     if fockish:
